@@ -213,7 +213,9 @@ func scopesOf(ss []string) (out [][]byte, canRead, canWrite bool) {
 // connect opens a session for who and returns the websocket (nil if the session or the dial failed).
 func (w *world) connect(who Ident, bid string) (*websocket.Conn, error) {
 	var exp time.Time
-	if err := exp.UnmarshalText(who.ExpiresAt); err != nil {
+	if who.Exp != 0 {
+		exp = time.Unix(who.Exp, 0)
+	} else if err := exp.UnmarshalText(who.ExpiresAt); err != nil {
 		return nil, err
 	}
 	now := time.Now().Unix()
@@ -273,7 +275,7 @@ func sanitizedIdent(who Ident) Ident {
 	return o
 }
 
-func keyOf(i Ident) string { b, _ := json.Marshal(i); return string(b) }
+func keyOf(i Ident) string { i.Exp = 0; b, _ := json.Marshal(i); return string(b) }
 
 // show is the readable form used in violation details.
 func show(i Ident) string {
@@ -480,11 +482,26 @@ func genWho(r *lib.Rng, prefix string, id uint64, now int64) (Ident, bool) {
 	if r.Chance(3, 4) {
 		addr = headerSafe(oddString(r))
 	}
-	who := Ident{Topic: []byte(topic), Scopes: scb, CanRead: cr, CanWrite: cw, ExpiresAt: expText(now + int64(r.Range(120, 200000))), UserAgent: ua, Addr: addr}
+	exp := expiryValue(r, now)
+	who := Ident{Topic: []byte(topic), Scopes: scb, CanRead: cr, CanWrite: cw, ExpiresAt: expText(exp), Exp: exp, UserAgent: ua, Addr: addr}
 	if who.Addr == nil {
 		who.Addr = []byte{}
 	}
 	return who, cr || cw
+}
+
+// expiryValue: mostly ordinary lifetimes; one in three a boundary of the arithmetic an expiry passes
+// through (int32, float64 mantissa, time.Duration seconds, the relay's clamp of the expiry timer at
+// MaxInt64/1e9 seconds from now, the largest year RFC 3339 can write).
+func expiryValue(r *lib.Rng, now int64) int64 {
+	const clamp = int64(9223372036) // MaxInt64 / time.Second
+	edges := []int64{now + clamp - 1, now + clamp, now + clamp + 1, now + clamp + 86400, clamp - 1, clamp, clamp + 1,
+		2147483646, 2147483647, 2147483648, 4294967295, 4294967296, 253402300799, 253402300799 - 86400, 32503680000,
+		now + 120, now + 61, now + 3600*24*365*100}
+	if r.Chance(1, 3) {
+		return edges[r.Intn(len(edges))]
+	}
+	return now + int64(r.Range(120, 200000))
 }
 
 // headerSafe keeps what net/http lets through in a header value: no control bytes except tab, no
